@@ -363,6 +363,15 @@ def gen_origin(rng, tpl):
 def gen_population(rng, tpl, honour=True, max_files=40):
     """list of File objects (unique paths).  honour: every file lasts at most one
     sub-directory period (when the directory part holds temporal placeholders)"""
+    for _ in range(20):
+        try:
+            return _gen_population(rng, tpl, honour, max_files)
+        except OverflowError:       # origin too close to datetime.min / datetime.max: draw again
+            continue
+    return [], None
+
+
+def _gen_population(rng, tpl, honour, max_files):
     if not tpl.is_temporal():
         files = []
         n = rng.randint(0, 8)
